@@ -149,6 +149,12 @@ def materialise(wd, d):
                 a, b = r["gap"]
                 p1, c1, s1 = seg(r["first"], a)
                 p2, c2, s2 = seg(b, r["last"])
+                skip = p2 - (p1 + W.cigar_reflen(c1))
+                if r.get("splice") and skip > 0:
+                    # ONE spliced alignment (cDNA-like): the sites between a and b lie inside its reference skip (N)
+                    reads.append({"name": name, "flag": 0, "ref": r["chrom"], "pos": p1, "cigar": W.cigar_str(list(c1) + [("N", skip)] + list(c2)),
+                                  "seq": s1 + s2, "rg": "rg_" + r["sample"]})
+                    continue
                 reads.append({"name": name, "flag": 1 | 2 | 64 | 32, "ref": r["chrom"], "pos": p1, "cigar": W.cigar_str(c1), "seq": s1,
                               "rg": "rg_" + r["sample"], "mate": {"ref": r["chrom"], "pos": p2}})
                 reads.append({"name": name, "flag": 1 | 2 | 128 | 16, "ref": r["chrom"], "pos": p2, "cigar": W.cigar_str(c2), "seq": s2,
@@ -266,13 +272,25 @@ def run_phase(wd, d, paths, vcf_in=None, out_name="out.vcf", phase_inputs=None, 
     import logging
     logging.disable(logging.ERROR)
     exc = ""
+    saved_fd = None
+    out_arg = os.path.join(d, out_name)
+    if o.get("to_stdout"):
+        # the phased VCF goes to STANDARD OUTPUT (the documented default without -o): file descriptor 1 is pointed at the
+        # output file for the duration of the run, so everything the run prints there ends up in the "VCF"
+        import sys
+        sys.stdout.flush()
+        saved_fd = os.dup(1)
+        fd = os.open(out_arg, os.O_WRONLY | os.O_CREAT | os.O_TRUNC, 0o644)
+        os.dup2(fd, 1)
+        os.close(fd)
+        out_arg = sys.stdout
     try:
         run_whatshap(
             phase_input_files=phase_inputs or ([paths["bam"]] + ([paths["bam2"]] if paths.get("bam2") else [])
                                                + ([paths["pvcf"]] if paths.get("pvcf") else [])),
             variant_file=vcf_in or paths["vcf"],
             reference=paths["ref"] if o.get("reference", True) else False,
-            output=os.path.join(d, out_name),
+            output=out_arg,
             samples=o.get("samples"),
             chromosomes=o.get("chromosomes"),
             only_snvs=o.get("only_snvs", False),
@@ -293,6 +311,11 @@ def run_phase(wd, d, paths, vcf_in=None, out_name="out.vcf", phase_inputs=None, 
         exc = type(e).__name__ + ":" + str(e)[:200]
     finally:
         os.environ.pop("WHATSHAP_VERIF_TRACE", None)
+        if saved_fd is not None:
+            import sys
+            sys.stdout.flush()
+            os.dup2(saved_fd, 1)
+            os.close(saved_fd)
     h1 = []
     if os.path.exists(trace):
         with open(trace) as fh:
@@ -431,6 +454,15 @@ def rand_world(rng, nsamples=1, nchroms=1, ped=None, kinds=("snv", "snv", "snv",
 
 # ----------------------------------------------------------------------------------------------
 # one run -> one "PhaseRun" event (everything as small integers)
+def shuffle_roles(rng, ped, samples):
+    """the same pedigree shape with the roles dealt to other sample names (children may sort before parents, VCF column
+    order independent of the roles) and the PED lines in another order"""
+    perm = dict(zip(samples, rng.sample(list(samples), len(samples))))
+    out = [[perm[x] for x in t] for t in ped]
+    rng.shuffle(out)
+    return out
+
+
 def add_decoys(rng, w, p_each=0.5):
     """Alignments the reader must ignore, with arbitrary alleles; optionally a non-default --mapping-quality.  The truth
     of the world is unaffected: the statement's reads are the usable alignments."""
